@@ -2121,23 +2121,54 @@ func loopVisitsEvery(p *Prog, fi *FuncInfo, isCollection func(e ast.Expr) bool, 
 			scopes = append(scopes, h.Decl.Body)
 		}
 	}
+	var loopStmt ast.Stmt
+	var loopBody *ast.BlockStmt
 	for _, sc := range scopes {
 		for _, rs := range rangeLoops(sc) {
 			if isCollection(rs.X) {
-				loop = rs
+				loop, loopStmt, loopBody = rs, rs, rs.Body
+			}
+		}
+		// an index loop over the whole collection: for i := 0; i < n; i++ { ... coll[i] ... }
+		for _, fs := range forLoops(sc) {
+			if fs.Cond == nil || fs.Init == nil || fs.Post == nil {
+				continue
+			}
+			init, ok := fs.Init.(*ast.AssignStmt)
+			if !ok || len(init.Lhs) != 1 {
+				continue
+			}
+			iv := objOf(f.Pkg.TypesInfo, init.Lhs[0])
+			cond, ok := ast.Unparen(fs.Cond).(*ast.BinaryExpr)
+			if iv == nil || !ok || cond.Op != token.LSS || objOf(f.Pkg.TypesInfo, cond.X) != iv {
+				continue
+			}
+			indexed := false
+			ast.Inspect(fs.Body, func(x ast.Node) bool {
+				if ix, ok := x.(*ast.IndexExpr); ok && isCollection(ix.X) && objOf(f.Pkg.TypesInfo, ix.Index) == iv {
+					indexed = true
+				}
+				return true
+			})
+			if indexed {
+				loopStmt, loopBody = fs, fs.Body
 			}
 		}
 	}
-	if loop == nil {
+	_ = loop
+	if loopStmt == nil {
 		return false, ""
 	}
-	head := f.loopHead(loop)
+	head := f.loopHeadStmt(loopStmt)
 	if head < 0 {
 		return false, ""
 	}
 	calls := setOf(f.NodesMust(pred))
 	inLoop := func(n *GNode) bool {
-		return n.Ast != nil && n.Ast.Pos() >= loop.Body.Pos() && n.Ast.End() <= loop.Body.End()
+		if fs, ok := loopStmt.(*ast.ForStmt); ok && n.Ast != nil && fs.Post != nil && n.Ast.Pos() >= fs.Post.Pos() && n.Ast.End() <= fs.Post.End() {
+			return true // the post statement belongs to the loop
+		}
+		return n.Ast != nil && n.Ast.Pos() >= loopBody.Pos() && n.Ast.End() <= loopBody.End()
 	}
 	var start []int
 	for _, e := range f.Nodes[head].Succs {
